@@ -8,6 +8,7 @@ import (
 	"os"
 	"os/exec"
 	"runtime"
+	"sort"
 	"strings"
 	"sync"
 
@@ -27,6 +28,7 @@ import (
 // C18 — independent SAs and messages can be processed concurrently without interference.
 
 type c18Case struct {
+	K     string  `json:"k,omitempty"` // "" = schedule; "footprint" = state footprint of two ops
 	Progs [][]int `json:"programs"` // per thread: op indices
 	Sched []int   `json:"schedule"` // explorer choice vector
 	Bound int     `json:"bound"`
@@ -341,6 +343,10 @@ func init() {
 		Replay: func(c *engine.Ctx, raw json.RawMessage) {
 			var cs c18Case
 			unmarshalCase(raw, &cs)
+			if cs.K == "footprint" {
+				c18Footprints(c, cs.Progs[0])
+				return
+			}
 			c18One(c, cs.Progs, engine.NewReplayRun(cs.Sched), cs.Bound, cs.Fine)
 		},
 	})
@@ -480,6 +486,11 @@ func runC18(c *engine.Ctx) {
 		}
 	}
 	if c.Shard == 0 {
+		var all []int
+		for i := range ops {
+			all = append(all, i)
+		}
+		c18Footprints(c, all)
 		c18RacePass(c)
 	}
 }
@@ -598,6 +609,7 @@ func c18RacePass(c *engine.Ctx) {
 // from two threads, at least one a syntactically definite write, unordered by happens-before, is a
 // definite race.
 type raceDetector struct {
+	syncs    int
 	vc       [][]int
 	global   []int
 	lastW    map[string]accessRec
@@ -623,6 +635,7 @@ func newRaceDetector(n int) *raceDetector {
 }
 
 func (rd *raceDetector) syncOp(t int) {
+	rd.syncs++
 	if t < 0 || t >= len(rd.vc) {
 		return
 	}
@@ -674,4 +687,98 @@ func (rd *raceDetector) access(t, id int, write bool) {
 		}
 	}
 	rd.vc[t][t]++
+}
+
+// ---- state footprint of single ops (instrumented build) -----------------------------------
+
+func dumpGlobals() map[string]string {
+	out := map[string]string{}
+	for pkg, vars := range engine.GlobalPointers() {
+		for name, ptr := range vars {
+			out[pkg+"."+name] = engine.Dump(ptr)
+		}
+	}
+	return out
+}
+
+type footprint struct {
+	changed []string
+	syncs   int
+}
+
+// c18Footprint runs one op alone and reports which package-level variables (deep: everything reachable
+// from them, e.g. a scratch field inside a shared registry object) changed, and how many lock / pool /
+// sync.Map operations the op performed.
+func c18Footprint(oi, k int) footprint {
+	before := dumpGlobals()
+	progs := make([][]int, k+1)
+	progs[k] = []int{oi}
+	_, s, _ := c18Execute(progs, engine.NewReplayRun(nil), false)
+	after := dumpGlobals()
+	var fp footprint
+	for v, d := range after {
+		if before[v] != d {
+			fp.changed = append(fp.changed, v)
+		}
+	}
+	sort.Strings(fp.changed)
+	if rd, ok := s.Race.(*raceDetector); ok {
+		fp.syncs = rd.syncs
+	}
+	return fp
+}
+
+// c18Footprints: an op that changes state reachable from package-level variables without performing
+// any synchronisation operation writes that state unordered with respect to everything another
+// goroutine does; if another op (or a second instance of the same op) changes the same variable, the
+// two writes are a definite data race whenever the ops run in parallel. A library that keeps no
+// mutable state outside the objects passed in has empty footprints.
+func c18Footprints(c *engine.Ctx, opIdx []int) {
+	if !engine.InstrumentedBuild() {
+		c.Note("state footprints not measured in a plain build")
+		return
+	}
+	ops := c18Ops()
+	fps := map[int]footprint{}
+	for _, oi := range opIdx {
+		a, b := c18Footprint(oi, 0), c18Footprint(oi, 1)
+		fp := footprint{syncs: a.syncs}
+		seen := map[string]bool{}
+		for _, v := range append(a.changed, b.changed...) {
+			if !seen[v] {
+				seen[v] = true
+				fp.changed = append(fp.changed, v)
+			}
+		}
+		if b.syncs < fp.syncs {
+			fp.syncs = b.syncs
+		}
+		fps[oi] = fp
+		c.Evals++
+		if len(fp.changed) > 0 {
+			c.Count("ops_that_change_package_level_state", 1)
+			c.Note(fmt.Sprintf("op %q changes package-level state %v (sync operations during the op: %d)", ops[oi].name, fp.changed, fp.syncs))
+		}
+	}
+	c.Count("ops_with_measured_state_footprint", int64(len(opIdx)))
+	if engine.AtomicImports() > 0 {
+		c.Note("the library imports sync/atomic: unsynchronised-write rule not applied (atomic updates are not redirected)")
+		return
+	}
+	for i, a := range opIdx {
+		for _, b := range opIdx[i:] {
+			fa, fb := fps[a], fps[b]
+			if fa.syncs > 0 && fb.syncs > 0 {
+				continue
+			}
+			for _, v := range fa.changed {
+				for _, w := range fb.changed {
+					if v == w {
+						c.Violate("unsynchronised-global-write/"+v, fmt.Sprintf("ops %q and %q both change state reachable from %s and at least one of them performs no synchronisation at all: run in parallel on two goroutines the writes are a data race", ops[a].name, ops[b].name, v),
+							c18Case{K: "footprint", Progs: [][]int{{a, b}}})
+					}
+				}
+			}
+		}
+	}
 }
